@@ -279,6 +279,21 @@ func cmdCheck(args []string) int {
 			continue
 		}
 		fails := len(o.Violations) > 0
+		if k.Status == "fixed" && !fails {
+			// the recorded schedule is tied to the old code's step numbers:
+			// also run the witness scenario under fresh schedules
+			e := harness.Get(rp.Engine)
+			sc, _ := e.Decode(rp.Scenario)
+			for j := uint64(1); j <= 200 && !fails; j++ {
+				c := e.Reseed(sc, j)
+				if err := e.Prepare([]interface{}{c}); err != nil {
+					break
+				}
+				if o2 := e.Exec(c, harness.ExecOpts{}); o2.Infra == "" && len(o2.Violations) > 0 {
+					o, fails = o2, true
+				}
+			}
+		}
 		switch k.Status {
 		case "known":
 			if fails {
